@@ -1340,3 +1340,40 @@ package server
 //@     assert [C14:namespace-state-read-from-the-key-assert-writes] id == "namespacestate" && collection == NamespacesIndex
 //@   at call GetObject#2 before
 //@     assert [C14:deleted-set-read-from-the-key-delete-writes] id == "deleteddatasets" && collection == StoreMetaIndex
+
+// ---------------------------------------------------------------------------
+// C14: the object store helpers derive the badger key of an object from (collection, id) in one and the same way:
+// two bytes big-endian collection index, then the bytes of "::" + id. Writers (StoreObject), readers (GetObject) and
+// DeleteObject are proved against the same predicate, so what is persisted under (collection, id) is what a restart reads.
+//@ spec isObjKey(k []byte, c int, id string) bool = len(k) == len(id) + 4 && encBE16(k, 0) == c && (forall j int :: 0 <= j && j < len(id) + 2 ==> k[2 + j] == strByteAt("::" + id, j))
+//@ assumed json.Marshal
+//@   pure
+//@ assumed json.Unmarshal
+//@   pure
+//@ unit (*Store).StoreObject
+//@   prop C14
+//@   requires s != nil
+//@   ensures [C14:a-persisted-object-is-recorded-as-persisted] result == nil ==> $persisted == put(old($persisted), id, true)
+//@   ensures [C14:a-failed-write-is-not-recorded] result != nil ==> $persisted == old($persisted)
+//@   ensures $storeAttempted == put(old($storeAttempted), id, true)
+//@   safe slice
+//@   at entry
+//@     ghost $storeAttempted := put($storeAttempted, id, true)
+//@   at call storeValue#1 before
+//@     assert [C14:object-written-under-the-key-of-its-collection-and-id] isObjKey(key, collection, id) && value == b
+//@   at call storeValue#1
+//@     ghost $persisted := $result == nil ? put($persisted, id, true) : $persisted
+//@ unit (*Store).GetObject
+//@   prop C14
+//@   requires s != nil
+//@   safe slice
+//@   at call readValue#1 before
+//@     assert [C14:object-read-from-the-key-of-its-collection-and-id] isObjKey(key, collection, id)
+//@   at call Unmarshal#1 before
+//@     assert [C14:object-decoded-from-the-bytes-read] $arg0 == data
+//@ unit (*Store).DeleteObject
+//@   prop C14
+//@   requires s != nil
+//@   safe slice
+//@   at call deleteValue#1 before
+//@     assert [C14:object-deleted-under-the-key-of-its-collection-and-id] isObjKey(key, collection, id)
